@@ -237,7 +237,32 @@ class Evaluator:
         finally:
             self.frames.pop()
 
-    def _invoke(self, fi: FuncInfo, st: State, pos, kw, star_kw, self_val, node, top=False, closure_env=None) -> Val:
+    def _repo_decorators(self, fi: FuncInfo):
+        out = []
+        for d in getattr(fi.node, 'decorator_list', []) or []:
+            target = d.func if isinstance(d, ast.Call) else d
+            r = self.prog.resolve_expr(fi.module, target)
+            if r is not None and r[0] == 'func':
+                out.append((d, r[2]))
+        return out
+
+    def _invoke(self, fi: FuncInfo, st: State, pos, kw, star_kw, self_val, node, top=False, closure_env=None, raw=False) -> Val:
+        if not raw and self.depth < self.max_depth:
+            decos = self._repo_decorators(fi)
+            if decos:
+                # a decorator defined in the repository decides what a call of the method does: apply it to the undecorated function
+                cur = Fn('repo', fi)
+                cur.raw = True
+                for d, dfi in reversed(decos):
+                    if isinstance(d, ast.Call):
+                        self.issue(st, node, f"decorator factory {ast.unparse(d)[:40]} on {fi.qualname}")
+                        break
+                    cur = self._invoke(dfi, st, [cur], {}, None, None, node)
+                else:
+                    res_ = self.call(cur, ([self_val] if (self_val is not None and not fi.is_static and fi.cls is not None) else []) + list(pos), kw, star_kw, st, node)
+                    if top:
+                        self.top_state = getattr(self, 'top_state', None) or st
+                    return res_
         if self.depth >= self.max_depth:
             return self.opaque_call(fi, st, pos, kw, star_kw, self_val, node)
         env = self._bind(fi, st, pos, kw, star_kw, self_val, node, top=top)
@@ -1149,8 +1174,12 @@ class Evaluator:
         for k, v in zip(e.keys, e.values):
             if isinstance(k, ast.Constant) and isinstance(k.value, str):
                 items[k.value] = self.eval(v, st)
-            else:
+                continue
+            kv = self.eval(k, st) if k is not None else None
+            key = _const_key(kv)
+            if key is None:
                 return Term('dict', (), uid=fresh_serial(), kind='dict')
+            items[key] = self.eval(v, st)
         return Kw(items)
 
     def eval_JoinedStr(self, e, st):
@@ -1265,6 +1294,12 @@ class Evaluator:
             return Term('neg', (self.eval(e.operand, st),))
         if isinstance(e.op, ast.UAdd):
             return v
+        if isinstance(e.op, ast.Invert):
+            if isinstance(v, Term) and v.head == 'mask' and v.args:
+                return Term('mask', (p_not(v.args[0]),), kind='ndarray')        # element-wise negation of a boolean array
+            if isinstance(v, (P, Const)) and (not isinstance(v, Const) or isinstance(v.v, bool)):
+                return p_not(v)
+            return Term('invert', (v,), kind=getattr(v, 'kind', 'unknown'))
         return self.unsupported(st, e, 'unary ' + type(e.op).__name__)
 
     def as_num(self, v: Val, array_hint: Optional[bool] = None) -> Optional[Num]:
@@ -1560,9 +1595,10 @@ class Evaluator:
                 raise _PyRaise('KeyError')
             return Term('getattr', (base.args[0], idx), kind='unknown')
         if isinstance(base, Kw):
-            if isinstance(idx, Const) and idx.v in base.items:
-                return base.items[idx.v]
-            if isinstance(idx, Const) and base.rest is None:
+            key = _const_key(idx)
+            if key is not None and key in base.items:
+                return base.items[key]
+            if key is not None and base.rest is None:
                 raise _PyRaise('KeyError')
             return Term('item', (base, idx))
         nb = base if isinstance(base, Num) else None
@@ -1676,7 +1712,9 @@ class Evaluator:
             if fn.fkind == 'repo':
                 fi: FuncInfo = fn.ref
                 if self.inline(fi) and self.depth < self.max_depth and not self._recursing(fi):
-                    return self._invoke(fi, st, pos, kw, star_kw, fn.self_val, node)
+                    return self._invoke(fi, st, pos, kw, star_kw, fn.self_val, node, raw=getattr(fn, 'raw', False))
+                if getattr(fn, 'raw', False):
+                    return self._invoke(fi, st, pos, kw, star_kw, fn.self_val, node, raw=True)
                 return self.opaque_call(fi, st, pos, kw, star_kw, fn.self_val, node)
             if fn.fkind == 'class':
                 ci: ClassInfo = fn.ref
@@ -2050,15 +2088,14 @@ def h_std(ev, pos, kw, st, node):
     v = ev.as_num(_arg(pos, kw, 0, 'a'), True)
     if v is None or v.length is None or (set(kw) - {'a'}) or len(pos) > 1:
         return None
-    return Num(sym.mk_reduce('Std', v.r, v.length))
+    return Num(sym.mk_pow(sym.variance_form(v.r, v.length), C(Fraction(1, 2))))
 
 
 def h_var(ev, pos, kw, st, node):
     v = ev.as_num(_arg(pos, kw, 0, 'a'), True)
     if v is None or v.length is None or (set(kw) - {'a'}) or len(pos) > 1:
         return None
-    s = sym.mk_reduce('Std', v.r, v.length)
-    return Num(s * s)
+    return Num(sym.variance_form(v.r, v.length))
 
 
 def h_sqrt(ev, pos, kw, st, node):
@@ -2186,6 +2223,22 @@ def h_isscalar(ev, pos, kw, st, node):
 
 def h_path_join(ev, pos, kw, st, node):
     return Term('lib:os.path.join', pos, (), kind='str')
+
+
+def _const_key(v):
+    """hashable Python key of a literal (constant, integer, tuple of such); None when it is not a literal"""
+    if isinstance(v, Const):
+        try:
+            hash(v.v)
+            return v.v
+        except TypeError:
+            return None
+    if isinstance(v, Num) and v.is_const() and v.const().denominator == 1:
+        return int(v.const())
+    if isinstance(v, Tup) and v.kind == 'tuple':
+        ks = [_const_key(i) for i in v.items]
+        return tuple(ks) if all(k is not None for k in ks) else None
+    return None
 
 
 def _as_fill(t):
